@@ -39,7 +39,7 @@ func vkUniverse(rot int) *zonemodel.Universe {
 	rs := u.AddZone(zonemodel.ZoneSpec{Apex: "rs.t.", Mode: zonemodel.Unsigned, Server: "."})
 
 	s.Add(
-		"a A 10.1.0.1", "a A 10.1.0.2", "a AAAA 2001:db8:1::1", `a TXT "a-in-s"`,
+		"a A 10.1.0.1", "a A 10.1.0.2", "a AAAA 2001:db8:1::1", `a TXT "a-in-s"`, `a CAA 0 issue "ca.t"`,
 		"b A 10.1.0.3",
 		"www CNAME a.s.t.",
 		"ext CNAME a.h.t.",
@@ -50,7 +50,7 @@ func vkUniverse(rot int) *zonemodel.Universe {
 		"wc CNAME x.w.s.t.",
 	)
 	h.Add(
-		"a A 10.2.0.1", "a AAAA 2001:db8:2::1", `a TXT "a-in-h"`,
+		"a A 10.2.0.1", "a AAAA 2001:db8:2::1", `a TXT "a-in-h"`, `a CAA 0 issue "ca.t"`,
 		"*.w A 10.2.7.7",
 		"www CNAME a.h.t.",
 	)
@@ -107,4 +107,5 @@ var vkNames = []vkName{
 	{".", 1},
 }
 
-var vkTypes = []uint16{dns.TypeA, dns.TypeAAAA, dns.TypeTXT, dns.TypeDS, dns.TypeDNSKEY, dns.TypeCNAME}
+// (CAA = 257: a type code above 63, outside every small-bitmask shortcut)
+var vkTypes = []uint16{dns.TypeA, dns.TypeAAAA, dns.TypeTXT, dns.TypeDS, dns.TypeDNSKEY, dns.TypeCNAME, dns.TypeCAA}
